@@ -111,9 +111,17 @@ fn ts_member_filter(value: &Value, args: &HashMap<String, Value>) -> tera::Resul
 /// - "string" -> "string" (primitives unchanged)
 /// - "User[]" -> "types.User[]"
 /// - "User | null" -> "types.User | null"
-fn add_types_prefix_filter(value: &Value, _args: &HashMap<String, Value>) -> tera::Result<Value> {
+///
+/// `keep` lists TypeScript types that type mappings put in place of Rust types
+/// (`{{ t | add_types_prefix(keep=mapped_types) }}`): they are not declared in types.ts
+fn add_types_prefix_filter(value: &Value, args: &HashMap<String, Value>) -> tera::Result<Value> {
     if let Some(ts_type) = value.as_str() {
-        let prefixed = add_types_prefix(ts_type);
+        let keep: Vec<&str> = args
+            .get("keep")
+            .and_then(|v| v.as_array())
+            .map(|items| items.iter().filter_map(|item| item.as_str()).collect())
+            .unwrap_or_default();
+        let prefixed = add_types_prefix_keeping(ts_type, &keep);
         Ok(Value::String(prefixed))
     } else {
         Err("add_types_prefix filter expects a string".into())
@@ -121,19 +129,26 @@ fn add_types_prefix_filter(value: &Value, _args: &HashMap<String, Value>) -> ter
 }
 
 /// Add "types." prefix to custom types for use in function signatures
+#[cfg(test)]
 fn add_types_prefix(ts_type: &str) -> String {
-    // Handle primitives - no prefix needed
+    add_types_prefix_keeping(ts_type, &[])
+}
+
+/// Add "types." prefix to custom types, leaving the types in `keep` as they are
+fn add_types_prefix_keeping(ts_type: &str, keep: &[&str]) -> String {
+    // Handle primitives and mapped types - no prefix needed
     if matches!(
         ts_type,
         "void" | "string" | "number" | "boolean" | "any" | "unknown" | "null" | "undefined"
-    ) {
+    ) || keep.contains(&ts_type)
+    {
         return ts_type.to_string();
     }
 
     // Handle arrays: CustomType[] -> types.CustomType[]
     if let Some(base_type) = ts_type.strip_suffix("[]") {
         // The element type may itself be an array, tuple, Record or primitive
-        return format!("{}[]", add_types_prefix(base_type));
+        return format!("{}[]", add_types_prefix_keeping(base_type, keep));
     }
 
     // Handle Record/Map - they contain types but the structure itself doesn't need prefix
@@ -144,13 +159,13 @@ fn add_types_prefix(ts_type: &str) -> String {
     // Handle union with null: CustomType | null -> types.CustomType | null
     if ts_type.ends_with(" | null") {
         let base = ts_type.strip_suffix(" | null").unwrap();
-        return format!("{} | null", add_types_prefix(base));
+        return format!("{} | null", add_types_prefix_keeping(base, keep));
     }
 
     // Handle union with undefined: CustomType | undefined -> types.CustomType | undefined
     if ts_type.ends_with(" | undefined") {
         let base = ts_type.strip_suffix(" | undefined").unwrap();
-        return format!("{} | undefined", add_types_prefix(base));
+        return format!("{} | undefined", add_types_prefix_keeping(base, keep));
     }
 
     // Handle tuples [T, U, ...] - keep as is since they're inline
